@@ -230,10 +230,11 @@ func vhC05OnSeg(a, b, p Point) bool {
 func VH_C05_dashdriver_Q() {
 	vStub("math.Mod", vhModBounded) // exact for |offset| <= 4 periods (here <= 2)
 	// quick tier: the three two-subpath shapes (they contain the single-subpath cases)
-	shapeK := vChoose(2, 4)
+	lo := 2
 	if vTier() == 1 {
-		shapeK = vChoose(0, 4)
+		lo = 0
 	}
+	shapeK := vChoose(lo, 4)
 	shapes := vhC05Shapes(shapeK)
 	p := &Path{}
 	for _, s := range shapes {
